@@ -12,6 +12,7 @@ Local Notation "'B' s" := (ltac:(let v := eval vm_compute in (bytes_of_string s%
 
 Section Inert.
 Variables pf64 pf32 : xstr -> option N.
+Variable fdiv : N -> Z -> N.
 
 Lemma check_type_ins e c c' : ins c c' -> check_type e c' = check_type e c.
 Proof. intros H. unfold check_type. rewrite (ins_attribute _ _ _ H). reflexivity. Qed.
@@ -279,7 +280,7 @@ Lemma pinhole_from_node_ins n n' :
 Proof. intros H. unfold pinhole_from_node. rwi H. reflexivity. Qed.
 
 Lemma spherical_from_node_ins n n' :
-  ins n n' -> spherical_from_node pf64 n' = spherical_from_node pf64 n.
+  ins n n' -> spherical_from_node pf64 fdiv n' = spherical_from_node pf64 fdiv n.
 Proof. intros H. unfold spherical_from_node. rwi H. reflexivity. Qed.
 
 Lemma cylindrical_from_node_ins n n' :
@@ -287,7 +288,7 @@ Lemma cylindrical_from_node_ins n n' :
 Proof. intros H. unfold cylindrical_from_node. rwi H. reflexivity. Qed.
 
 Lemma projection_from_image_node_ins n n' :
-  ins n n' -> projection_from_image_node pf64 n' = projection_from_image_node pf64 n.
+  ins n n' -> projection_from_image_node pf64 fdiv n' = projection_from_image_node pf64 fdiv n.
 Proof.
   intros H. unfold projection_from_image_node.
   apply opt_case_ins2; [apply ins_find_child; [assumption|reflexivity]| |].
@@ -299,7 +300,7 @@ Proof.
 Qed.
 
 Lemma image_from_node_ins n n' :
-  ins n n' -> image_from_node pf64 n' = image_from_node pf64 n.
+  ins n n' -> image_from_node pf64 fdiv n' = image_from_node pf64 fdiv n.
 Proof.
   intros H. unfold image_from_node. rw H.
   rewrite (opt_transform_ins _ _ _ H) by reflexivity.
@@ -329,23 +330,23 @@ Proof.
 Qed.
 
 Theorem extract_all_ins d d' :
-  ins_doc d d' -> extract_all pf64 pf32 d' = extract_all pf64 pf32 d.
+  ins_doc d d' -> extract_all pf64 pf32 fdiv d' = extract_all pf64 pf32 fdiv d.
 Proof.
   intros H. unfold extract_all, pointclouds_from_document, images_from_document.
   rewrite (root_from_document_ins _ _ H), (extensions_from_document_ins _ _ H).
   rewrite (vec_from_document_ins (B"data3D") (pointcloud_from_node pf64 pf32) _ _ H eq_refl pointcloud_from_node_ins).
-  rewrite (vec_from_document_ins (B"images2D") (image_from_node pf64) _ _ H eq_refl image_from_node_ins).
+  rewrite (vec_from_document_ins (B"images2D") (image_from_node pf64 fdiv) _ _ H eq_refl image_from_node_ins).
   reflexivity.
 Qed.
 
 (** namespaced attributes anywhere (also inside prototypes) *)
 Theorem extract_all_fattr d d' :
-  fattr_doc d d' -> extract_all pf64 pf32 d' = extract_all pf64 pf32 d.
+  fattr_doc d d' -> extract_all pf64 pf32 fdiv d' = extract_all pf64 pf32 fdiv d.
 Proof. intros H. apply extract_all_ins. apply fattr_doc_ins_doc. exact H. Qed.
 
 (** foreign elements whose subtree uses no looked-up local name, not in front of a leading text *)
 Theorem extract_all_fins_inert d d' :
-  fins_inert_doc d d' -> extract_all pf64 pf32 d' = extract_all pf64 pf32 d.
+  fins_inert_doc d d' -> extract_all pf64 pf32 fdiv d' = extract_all pf64 pf32 fdiv d.
 Proof. intros H. apply extract_all_ins. apply fins_inert_doc_ins_doc. exact H. Qed.
 
 End Inert.
